@@ -28,7 +28,9 @@ Definition dist_fn (t : list (N * N * N)) (mode : N) (a b : list N) : f32 :=
       match mode with
       | 0 => mn
       | 1 => mx
-      | _ => fadd mn (fdiv (f_of_N (Nlen a + Nlen b)) f_64)
+      | 2 => fadd mn (fdiv (f_of_N (Nlen a + Nlen b)) f_64)
+      (* shrinks when sets grow: under union linkage a later merge can be CLOSER than an earlier one *)
+      | _ => fdiv mn (f_of_N (Nlen a + Nlen b))
       end
   end.
 
